@@ -486,6 +486,7 @@ func Run(c *core.Ctx, r *core.Result) {
 	// one P: hand-offs between managed threads become direct goroutine
 	// switches instead of cross-thread wake-ups.
 	runtime.GOMAXPROCS(1)
+	// VERIF_C18_PROF=<file>: CPU profile of this worker (tuning aid only).
 	if f := os.Getenv("VERIF_C18_PROF"); f != "" {
 		if w, err := os.Create(f); err == nil {
 			pprof.StartCPUProfile(w)
